@@ -48,9 +48,16 @@ class Injector:
         self.fault = None      # {"op": k, "variant": v}
         self.fired = False
         self.buffered = False
+        self.trace = []        # every file-system step of the call, faultable or not: [kind, relative path]
+        self.fired_at = None   # length of trace when the fault fired
 
     def arm(self, root, fault):
         self.root, self.on, self.n, self.ops, self.fault, self.fired = root, True, 0, [], fault, False
+        self.trace, self.fired_at = [], None
+
+    def note(self, kind, path):
+        if self.on:
+            self.trace.append([kind, os.path.relpath(os.fsdecode(path), self.root)])
 
     def disarm(self):
         self.on = False
@@ -70,8 +77,11 @@ class Injector:
         self.ops.append("%s %s" % (kind, os.path.relpath(os.fsdecode(path), self.root)))
         f = self.fault
         if f is None or self.fired or f["op"] != self.n:
+            self.trace.append([kind, os.path.relpath(os.fsdecode(path), self.root)])
             return None
         self.fired = True
+        self.fired_at = len(self.trace)
+        self.fired_kind = kind
         v = f["variant"]
         if v == "crash" and not (is_write and self.buffered):
             raise Crash()
@@ -113,6 +123,7 @@ class WriteProxy:
     def write(self, data):
         if INJ.buffered and INJ.on:
             self._buf.append(data)
+            INJ.note("write", self._path)
             return len(data)
         act = INJ.op("write", self._path, is_write=True, data_len=len(data))
         if act is not None:
@@ -142,7 +153,10 @@ class WriteProxy:
             return
         self._closed = True
         try:
-            self._drain("close_w")
+            if INJ.buffered and INJ.on:
+                self._drain("close_w")
+            else:
+                INJ.note("close_w", self._path)
         finally:
             self._fh.close()
 
@@ -227,6 +241,7 @@ def run_job(job):
         faults = {f["call"]: f for f in job.get("faults", [])}
         opcounts = []
         oplists = []
+        optraces = []
         for i, (name, a) in enumerate(job["calls"]):
             fault = faults.get(i)
             verif_side.log.reset()
@@ -249,6 +264,8 @@ def run_job(job):
                 INJ.disarm()
             opcounts.append(INJ.n)
             oplists.append(list(INJ.ops))
+            optraces.append({"trace": list(INJ.trace), "fired_at": INJ.fired_at,
+                             "fired_kind": getattr(INJ, "fired_kind", "") if INJ.fired_at is not None else ""})
             bodies = {}
             for item in verif_side.log.take():
                 if item[0] == "Body":
@@ -270,6 +287,7 @@ def run_job(job):
             if crashed:
                 restart(base, job["cfg"].get("budget", 0))
         return {"cfg": job["cfg"], "ev": events, "opcounts": opcounts, "oplists": oplists if job.get("want_ops") else None,
+                "optraces": optraces if job.get("want_trace") else None,
                 "job": {"calls": job["calls"], "faults": job.get("faults", [])}}
     finally:
         INJ.disarm()
